@@ -24,6 +24,7 @@ def run(shard, tier, seed, prop, cores, halos, props=None, shrink_per_presig=3):
     t = shard['type']
     part, parts = shard.get('part', 0), shard.get('parts', 1)
     cls = lib.TYPES[t]
+    hist.VECTOR_LIMIT[0] = 12 if tier == 'quick' else None
     col = hist.Collector(cls, t, prop, props, shrink_per_presig)
     lib.COVERAGE.start(); lib.STEPS.start()
     ncore = 0
